@@ -242,7 +242,7 @@ def run(tier, V):
     cov['strings_checked'] = nstr
     cov['evaluations'] = ncp + nstr + ecov.get('edit_programs', 0)
     cov['distinct_nontrivial'] = (ncp - 127) + nontriv + ecov.get('edit_programs_nontrivial', 0)
-    cov['rule'] = ('(1) every Unicode scalar value U+0001..U+10FFFF through uc_len/uc_code/uc_slen/uc_end/uc_next and through the regex '
+    cov['rule'] = ('(0: editing part) random vi programs and :s commands (quantified and escaped multi-byte characters, the on-demand registers "; "# "^ on lines around 1 KiB, prompt editing) must leave valid UTF-8; (1) every Unicode scalar value U+0001..U+10FFFF through uc_len/uc_code/uc_slen/uc_end/uc_next and through the regex '
                    'engine\'s private decoders (., bracket, negated bracket, icase literal); non-trivial = multi-byte (cp>=128). '
                    '(2) ALL strings up to length %d over {a, e-acute, euro, emoji, tab}; (3) %d random strings of 6-60 chars; every offset/boundary '
                    'of uc_chr/uc_off/uc_next/uc_end/uc_beg/uc_prev/uc_chop/uc_sub vs Python str; non-trivial = contains a multi-byte char. '
